@@ -853,6 +853,8 @@ class View(ValueCastable):
         # Field guarantees that the shape-castable object is well-formed, so there is no need
         # to handle erroneous cases here.
         if isinstance(shape, ShapeCastable):
+            if Shape.cast(shape).signed:
+                value = value.as_signed()
             value = shape(value)
             if not isinstance(value, (Value, ValueCastable)):
                 raise TypeError(
